@@ -251,6 +251,25 @@ class BanditConfig:
                 if self._config.get(block) is None:
                     raise utils.ConfigError(message.format(key), path)
 
+        # the options bandit itself reads must have the documented shape:
+        # main() and the manager iterate over them without further checks
+        for key in ("tests", "skips", "exclude_dirs", "include"):
+            value = self._config.get(key)
+            if value is not None and not (
+                isinstance(value, list)
+                and all(isinstance(v, str) for v in value)
+            ):
+                raise utils.ConfigError(
+                    f"'{key}' must be a list of strings", path
+                )
+        profiles = self._config.get("profiles", {})
+        if not isinstance(profiles, dict) or not all(
+            isinstance(p, dict) for p in profiles.values()
+        ):
+            raise utils.ConfigError(
+                "'profiles' must map profile names to mappings", path
+            )
+
         if "profiles" in self._config:
             legacy = True
             for profile in self._config["profiles"].values():
